@@ -68,6 +68,7 @@ func run(t fataler, src string) ([]unit, string, error) {
 		}
 		gt, data := p.Next()
 		twin.Step()
+		gen.Extend(data)
 		if gt == json.ErrorGrammar {
 			return units, out.String(), p.Err()
 		}
